@@ -358,13 +358,25 @@ def r9_connection_ids_are_fresh(ctx):
     R.floor("C06.R9", n, 3, "places where a connection gets its id")
 
 
+def r10_ids_spelled_alike(ctx):
+    """the subscriber table is written with the id the IdProvider issued (accept) and read with the id the client sends
+    back (the unsubscribe callback): both sides must spell it the same way - whatever text transformation one side
+    applies the other applies too (today: none). A one-sided fold (lower-casing on unsubscribe only) makes the own,
+    active subscription unknown to unsubscribe: it answers false and the slot is never returned."""
+    from .common import text_transforms
+    F, R = ctx.F, ctx.R
+    w = text_transforms(F, R, (r"^jsonrpsee_core::server::subscription::PendingSubscriptionSink::accept$",))
+    r = text_transforms(F, R, (r"^jsonrpsee_core::server::rpc_module::RpcModule::<Context>::verify_and_register_unsubscribe$",))
+    R.check(w == r, "C06.R10", "sub-id-spelling:writer-reader-agree", "accept and unsubscribe use the subscription id in the same spelling (transformations: %s)" % (sorted(w) or "none"), "accept stores subscription ids transformed by %s but the unsubscribe callback looks them up transformed by %s: an id with (e.g.) upper-case letters is stored one way and looked up another, unsubscribe answers false for an active own subscription and its slot is never freed" % (sorted(w) or "nothing", sorted(r) or "nothing"), None)
+
+
 def rcfg_config_verbatim(ctx):
     """the configured `max_subscriptions_per_connection` reaches the ServerConfig unchanged (setter stores its argument, build()/Clone copy it)"""
     from .common import config_field_integrity
     config_field_integrity(ctx, "C06.CFG", "max_subscriptions_per_connection")
 
 
-RULES = [r1_permit_before_handler, r2_permit_flow, r3_unsubscribe_answer, r4_release_on_last_drop, r5_unsubscribe_needs_no_permit, r6_cap_provenance, r7_table_writers, r8_no_relock, r9_connection_ids_are_fresh, rcfg_config_verbatim]
+RULES = [r1_permit_before_handler, r2_permit_flow, r3_unsubscribe_answer, r4_release_on_last_drop, r5_unsubscribe_needs_no_permit, r6_cap_provenance, r7_table_writers, r8_no_relock, r9_connection_ids_are_fresh, r10_ids_spelled_alike, rcfg_config_verbatim]
 
 LEVEL_TEXT = (
     "Structural necessary conditions of subscription bookkeeping decided from the type-checked program: acquire dominates "
